@@ -74,7 +74,7 @@ impl SocketRecv for RouterSocket {
                     // tracing::warn!("Received unimplemented message type: {:?}", msg);
                 }
                 Some((peer_id, Err(_e))) => {
-                    self.backend.peer_disconnected(&peer_id);
+                    self.backend.peer_disconnected(&peer_id).await;
                     // We could take an approach of using `tracing` and have that be an optional feature
                     // tracing::error!("Error receiving message from peer {}: {:?}", peer_id, e);
                 }
